@@ -558,33 +558,27 @@ def x21_decode(h):
                            check_zone_status_record, "x21", 0x21)
 
 
-def normal_data_length_contract(h, mod, dec_cls, msg_cls, listattr, stride, check, sub_id):
+def normal_data_length_contract(h, mod, dec_cls, listattr, stride, sub_id):
     """4.a.ii / 4.a.iv: "No normal data (byte3 byte4: 0). If the protocol is upgraded, this value may
     change. Use this specific value for data parsing."  One record behind `nr` bytes of normal data:
-    the decoder must read the record after the normal data, or reject - not read the normal data
-    as a record."""
+    the decoder must read the record behind the normal data - i.e. return what it returns for the
+    payload without the normal data, whose vendor reading is the subject of decode-vendor-reading -
+    or reject; it must not read the normal data as a record."""
     nr = h.int("non_repeat_length", 1, 16)
     buf = h.abytes("payload")
-    dec = h.new(mod + ":" + dec_cls)
-    r = h.method(dec, "decode", buf, at5_c0_subheader(h, sub_id, nr, stride, 1))
+    h.assume(h.length(buf) >= nr + stride, "the payload carries the announced normal data and one record")
+    r = h.method(h.new(mod + ":" + dec_cls), "decode", buf, at5_c0_subheader(h, sub_id, nr, stride, 1))
     h.oblige("returns or rejects", only_rejects(h, r))
     if not r.ok:
         return
-    recs = h.elems(h.attr(h.attr(r.value, "message"), listattr))
-    h.oblige("one record", len(recs) == 1)
-    if len(recs) != 1:
-        return
-    if h.symbolic:
-        b = [S.SInt(z3.Select(buf.arr, S.int_t(buf.off + nr + i))) for i in range(stride)]
-        h.assume(And(*[And(x >= 0, x <= 255) for x in b]), "bytes are 0..255")
-    else:
-        b = list(buf[nr:nr + stride]) + [0] * stride
-    check(h, recs[0], b[:8], "record after the normal data: ")
+    r0 = h.method(h.new(mod + ":" + dec_cls), "decode", h.slice(buf, nr), at5_c0_subheader(h, sub_id, 0, stride, 1))
+    same = h.eq(h.elems(h.attr(h.attr(r.value, "message"), listattr)), h.elems(h.attr(h.attr(r0.value, "message"), listattr))) if r0.ok else False
+    h.oblige("the record is read behind the announced normal data (or the payload is rejected)", same)
 
 
 @oset("at5.xC021.decode-normal-data-length", ["C05", "C17"], [X21 + ":ZoneStatusDecoder.decode"], bounded="one record, normal data length 1..16")
 def x21_normal_data(h):
-    normal_data_length_contract(h, X21, "ZoneStatusDecoder", "ZoneStatusMessage", "zones", 8, check_zone_status_record, 0x21)
+    normal_data_length_contract(h, X21, "ZoneStatusDecoder", "zones", 8, 0x21)
 
 
 # ================================ 0x23 AC status =================================================
@@ -663,4 +657,115 @@ def x23_decode(h):
 
 @oset("at5.xC023.decode-normal-data-length", ["C05", "C17"], [X23 + ":AcStatusDecoder.decode"], bounded="one record, normal data length 1..16")
 def x23_normal_data(h):
-    normal_data_length_contract(h, X23, "AcStatusDecoder", "AcStatusMessage", "ac_status", 10, check_ac_status_record, 0x23)
+    normal_data_length_contract(h, X23, "AcStatusDecoder", "ac_status", 10, 0x23)
+
+
+# ================================ 0x33 AC timer status / 0x32 AC timer control ===================
+# NOT in the vendor document.  Repo-derived oracle: module docstrings of xC033_ac_timer_status.py /
+# xC032_ac_timer_ctrl.py ("reverse engineered") and the vectors of tests/at5/comms/test_xC033_ac_timer_status.py,
+# test_xC032_ac_timer_ctrl.py, e.g.  AC 1, on-timer disabled 02:03, off-timer disabled 04:05  ==  01 82 03 84 05 00 00 00 00:
+#   Byte1 AC number; Byte2 bit8 on-timer disabled, bit5-1 hour; Byte3 bit6-1 minute;
+#   Byte4 / Byte5 the same for the off-timer; Byte6-9 zero padding.  Repeat length 9.
+TIMER_ORACLE = ["oracle is repo-derived (module docstring + test vectors of tests/at5/comms): the vendor document v1.2 "
+                "does not describe sub-messages 0x32 / 0x33"]
+
+
+def gen_timer_state(h, name):
+    return h.new(X33 + ":AcTimerState", disabled=h.bool(name + "_disabled"),
+                 hour=h.int(name + "_hour", 0, 23), minute=h.int(name + "_minute", 0, 59))
+
+
+def gen_timer_data(h, i):
+    return h.new(X33 + ":AcTimerStatusData", ac_number=h.int(f"t{i}_ac_number", 0, 15),
+                 on_timer=gen_timer_state(h, f"t{i}_on"), off_timer=gen_timer_state(h, f"t{i}_off"))
+
+
+_X33_FUNCS = [X33 + ":AcTimerStatusEncoder.non_repeat_size", X33 + ":AcTimerStatusEncoder.repeat_count",
+              X33 + ":AcTimerStatusEncoder.repeat_size", X33 + ":AcTimerStatusEncoder.encode",
+              X33 + ":AcTimerStatusDecoder.decode"]
+_X32_FUNCS = _X33_FUNCS + [X32 + ":AcTimerControlDecoder.decode"]
+
+
+@oset("at5.xC033.roundtrip.request", ["C03"], _X33_FUNCS, assumptions=TIMER_ORACLE)
+def x33_roundtrip_request(h):
+    roundtrip_c0(h, X33 + ":AcTimerStatusEncoder", X33 + ":AcTimerStatusDecoder", h.new(X33 + ":AcTimerStatusRequest"), 0x33)
+
+
+@oset("at5.xC033.roundtrip.counts-0-16", ["C03"], _X33_FUNCS, assumptions=TIMER_ORACLE)
+def x33_roundtrip_counts(h):
+    """Repeat counts 0..16, every record fully symbolic (hours 0..23, minutes 0..59, AC 0..15)."""
+    n = h.choice("count", list(range(17)))
+    msg = h.new(X33 + ":AcTimerStatusMessage", [gen_timer_data(h, i) for i in range(n)])
+    out = roundtrip_c0(h, X33 + ":AcTimerStatusEncoder", X33 + ":AcTimerStatusDecoder", msg, 0x33)
+    if out is not None:
+        h.oblige("9 bytes per AC", h.eq(h.length(out), 9 * n))
+
+
+@oset("at5.xC032.roundtrip.counts-0-16", ["C03"], _X32_FUNCS, assumptions=TIMER_ORACLE)
+def x32_roundtrip_counts(h):
+    """The control message shares the encoder; its decoder must hand back an AcTimerControlMessage (id 0x32)."""
+    n = h.choice("count", list(range(17)))
+    msg = h.new(X32 + ":AcTimerControlMessage", [gen_timer_data(h, i) for i in range(n)])
+    roundtrip_c0(h, X32 + ":AcTimerControlEncoder", X32 + ":AcTimerControlDecoder", msg, 0x32)
+    mid = h.prop(msg, "message_id")
+    h.oblige("the control message announces sub type 0x32", And(mid.ok, h.eq(mid.value, 0x32) if mid.ok else False))
+
+
+def timer_wire_meaning(h, st, hi, lo, tag):
+    h.oblige(tag + "bit8 = disabled", h.eq(h.attr(st, "disabled"), hi // 128 == 1))
+    h.oblige(tag + "bit7-6 zero, bit5-1 = hour", And((hi // 32) % 4 == 0, hi % 32 == h.attr(st, "hour")))
+    h.oblige(tag + "minute byte: bit8-7 zero, bit6-1 = minute", lo == h.attr(st, "minute"))
+
+
+@oset("at5.xC032.encode-wire-meaning", ["C04"], [X33 + ":AcTimerStatusEncoder.encode"], assumptions=TIMER_ORACLE)
+def x32_vendor(h):
+    """What a quick-timer command puts on the wire (two ACs)."""
+    recs = [gen_timer_data(h, 0), gen_timer_data(h, 1)]
+    msg = h.new(X32 + ":AcTimerControlMessage", recs)
+    enc = h.new(X32 + ":AcTimerControlEncoder")
+    r = h.method(enc, "encode", at5_c0_subheader(h, 0x32, 0, 9, 2), msg)
+    h.oblige("encode does not raise", r.ok)
+    if not r.ok:
+        return
+    items = h.items(r.value)
+    h.oblige("9 bytes per AC", len(items) == 18)
+    if len(items) != 18:
+        return
+    for i, rec in enumerate(recs):
+        b = items[9 * i:9 * i + 9]
+        tag = f"record {i}: "
+        h.oblige(tag + "byte1 = AC number", b[0] == h.attr(rec, "ac_number"))
+        timer_wire_meaning(h, h.attr(rec, "on_timer"), b[1], b[2], tag + "on-timer ")
+        timer_wire_meaning(h, h.attr(rec, "off_timer"), b[3], b[4], tag + "off-timer ")
+        h.oblige(tag + "byte6-9 zero padding", And(b[5] == 0, b[6] == 0, b[7] == 0, b[8] == 0))
+
+
+def check_timer_record(h, rec, b, tag=""):
+    """Repo-derived reading of the first 5 bytes of an AC timer record."""
+    b1, b2, b3, b4, b5 = b
+    h.oblige(tag + "AC number = byte1", h.attr(rec, "ac_number") == b1)
+    for nm, hi, lo in (("on_timer", b2, b3), ("off_timer", b4, b5)):
+        st = h.attr(rec, nm)
+        h.oblige(tag + nm + " disabled = bit8", h.eq(h.attr(st, "disabled"), hi // 128 == 1))
+        h.oblige(tag + nm + " hour = bit5-1", h.attr(st, "hour") == hi % 32)
+        h.oblige(tag + nm + " minute = bit6-1 of the next byte", h.attr(st, "minute") == lo % 64)
+
+
+@oset("at5.xC033.decode-reading", ["C05", "C17"], [X33 + ":AcTimerStatusDecoder.decode"], assumptions=TIMER_ORACLE)
+def x33_decode(h):
+    """Unbounded in the record count, every announced stride (symbolic stride loop contract).  The
+    decoder reads 5 bytes per record; a stride below the 9-byte layout is rejected."""
+    status_decode_contract(h, X33, "AcTimerStatusDecoder", "AcTimerStatusMessage", X33 + ":AcTimerStatusRequest", "acs",
+                           "ac_timer_status", 5, 9, check_timer_record, "x33", 0x33)
+
+
+@oset("at5.xC032.decode-reading", ["C05", "C17"], [X32 + ":AcTimerControlDecoder.decode", X33 + ":AcTimerStatusDecoder.decode"],
+      assumptions=TIMER_ORACLE)
+def x32_decode(h):
+    """Same layout through the control decoder; an empty sub-message (which the status decoder reads
+    as a request) is not a control message and must be rejected."""
+    mk = lambda h: h.raw(X32 + ":AcTimerControlDecoder",
+                         _ac_timer_status_decoder=h.raw(X33 + ":AcTimerStatusDecoder", _mismatch_logged=h.bool("mismatch_logged")))
+    status_decode_contract(h, X32, "AcTimerControlDecoder", "AcTimerControlMessage", X33 + ":AcTimerStatusRequest", "acs",
+                           "ac_timer_status", 5, 9, check_timer_record, "x32", 0x32, mk_dec=mk,
+                           loop_fn=X33 + ":AcTimerStatusDecoder.decode", request_rejected=True)
